@@ -42,6 +42,9 @@ class Network:
         self.sent = 0
         self.cut = set()         # connections whose traffic is silently discarded (peer vanished)
         self.check_latency = 0.0 # virtual seconds a connect() spends before it can pair
+        self.count_from = None   # value of `sent` at the marked instant (C19: when close() starts)
+        self.drop_index = None
+        self.dropped = None
         self.counter = 0
 
     def register(self, conn):
@@ -54,6 +57,12 @@ class Network:
         self.sent += 1
         if dst is None or src in self.cut or dst in self.cut:
             return
+        if self.count_from is not None:
+            # one deviation after a marked instant: the drop_index-th datagram sent from then on is lost
+            k = self.sent - self.count_from - 1
+            if k == self.drop_index:
+                self.dropped = (src.index, len(data))
+                return
         if self.auto:
             self.loop.call_soon(self._deliver, dst, data)
         else:
